@@ -63,11 +63,15 @@ CLAIMED = {
     'C07': dict(
         text='On every feasible path of the loading entry points run on symbolic texts (fully symbolic '
              'lines and templates through the whole loader), symbolic override specifiers and all include '
-             'graphs over three in-memory resources, the only exception that escapes is a '
-             'ZConfig.ConfigurationError; any other exception class on a feasible path is a counterexample '
-             'whose path condition yields the concrete input.',
+             'graphs over three in-memory resources, symbolic %include arguments (package: URLs, //authority, '
+             'http://, fragments, plain tails; urljoin/urldefrag executed symbolically through an instrumented '
+             'copy of urllib/parse.py) and ZConfig.validator.main (schema from memory, configuration on stdin), '
+             'the only exception that escapes is a ZConfig.ConfigurationError (validator: status 0 iff valid, '
+             'else 1 with a message); any other exception class on a feasible path is a counterexample whose '
+             'path condition yields the concrete input.',
         note='trusted: z3, engine models (replayed per path); openResource is replaced by in-memory '
-             'resources; validator.main is not driven; known finding F7 (include cycle -> RecursionError)',
+             'resources, a symbolic URL outside the store is modelled as unopenable, __import__ of a symbolic '
+             'name as "one known package or ImportError"; known finding F7 (include cycle -> RecursionError)',
         ref='DESIGN.md section 7 C07'),
     'C05': dict(
         text='For define / use / include sequences with symbolic names (case variants, illegal names) and '
@@ -76,7 +80,9 @@ CLAIMED = {
              'family equal what the reference define rules give; included resources share the namespace, '
              'a second load against the same schema object starts empty.',
         note='trusted: z3, engine models (replayed per path), vf/oracles/linegrammar.py (define rules) and '
-             'conformance.py; in-memory include resources; sequences of at most 4 lines',
+             'conformance.py; in-memory include resources; sequences of at most 4 lines: hand-written layouts, '
+             'every pair (thorough: a quarter of the triples) of definition value kinds, the pairs split over an '
+             'include in both directions, two loads on one schema and on one ConfigLoader object',
         ref='DESIGN.md section 7 C05'),
     'C06': dict(
         text='Differential: on every path z3 shows that the real loader gives equal value trees (or rejects '
@@ -84,7 +90,9 @@ CLAIMED = {
              'sub / parent directory, nested cuts) and for the inlined text, with the same symbolic tokens; '
              'fragments that are unbalanced with respect to section nesting are rejected.',
         note='trusted: z3, engine models (replayed per path); the oracle is the real code on the inlined '
-             'spelling; openResource replaced by in-memory resources; include arguments concrete',
+             'spelling; openResource replaced by in-memory resources; include arguments concrete; cuts = every '
+             'balanced line range of 5 base texts x 3-4 placements, nested and disjoint pairs, unbalanced ranges, '
+             'fragments leaving their own section open',
         ref='DESIGN.md section 7 C06'),
     'C08': dict(
         text='For valid texts (main and included resources) in which one line carries symbolic tokens, z3 '
@@ -92,10 +100,13 @@ CLAIMED = {
              'resource - and the URL of the line the reference oracle holds responsible, for <t>..</t> and '
              '<t/> alike; conversion errors also carry the offending text and a ValueError instance.',
         note='trusted: z3, engine models (replayed per path), line attribution in vf/oracles; top-level '
-             'requirements unmet at end of input, %import failures and unopenable resources are not asserted',
+             'requirements unmet at end of input, %import failures and unopenable resources are not asserted; '
+             'layouts include faults in resources included 1-2 levels deep, lines made of vertical-whitespace '
+             'characters in front of the fault, and the main resource loaded without a URL',
         ref='DESIGN.md section 7 C08'),
     'C14': dict(
-        text='Differential: for concrete accepted texts with sections (depth up to 3) and symbolic override '
+        text='Differential: for accepted texts with sections (depth up to 3; concrete, and with symbolic section '
+             'names / key so that names coincide with each other or with type names) and symbolic override '
              'specifiers (path components, key, value, and fully symbolic specifier strings) z3 shows on every '
              'path that loading with overrides gives the same value tree - or rejection, a conversion error '
              'where the edited text gives one - as loading the text edited by an independent editor that '
@@ -104,13 +115,15 @@ CLAIMED = {
              'surrounding whitespace cannot be written as a text line and are excluded',
         ref='DESIGN.md section 7 C14'),
     'C15': dict(
-        text='Metamorphic: for the enumerated (original, rewritten) text pairs - symbolic whitespace for '
+        text='Metamorphic: for every balanced text shape up to 3 lines (thorough: plus a quarter of the 4-line '
+             'shapes) of 3 (thorough 12) family schemas x each mechanical rewrite {whitespace, blank/comment lines, '
+             'case, empty-section form, key reordering, all composed} and hand-written (original, rewritten) text pairs - symbolic whitespace for '
              'indentation and trailing space, symbolic comment text, modelled upper/lower/swapcase of section '
              'types, names, define names, references and case-insensitive keys, both empty-section forms, '
              'reordered key lines - with shared symbolic tokens, z3 shows on every path that the real loader '
              'yields equal value trees or rejects both; includes the shipped logger and mapping components.',
         note='trusted: z3, engine models (replayed per path); the oracle is the real code on the other '
-             'spelling; rewrites are hand-composed, not sampled',
+             'spelling; rewrites are applied at every applicable position at once, not sampled',
         ref='DESIGN.md section 7 C15'),
     'C17': dict(
         text='For 1-2 fully symbolic lines and line templates with symbolic holes, z3 shows on every path on '
@@ -131,7 +144,11 @@ CLAIMED = {
              'the conformance oracle; map names that are not legal basic-keys are outside the statement',
         ref='DESIGN.md section 7 C16'),
     'C18': dict(
-        text='REDUCED SCOPE. For all strings up to length 7 (quick) / 8 (thorough) over domain D z3 shows on every '
+        text='REDUCED SCOPE. %include references (symbolic path-only references over {a, b, ., /, #}, from the top '
+             'resource and from a resource in a sub-directory) run through the real loader with urljoin / '
+             'urldefrag executed symbolically and compared with an RFC 3986 reference resolver (a fragment is '
+             'refused); schema extends / import-src references inside base schemas in other directories (4 '
+             'concrete layouts with decoys). For all strings up to length 7 (quick) / 8 (thorough) over domain D z3 shows on every '
              'path that url.urlnormalize, the wrapper logic of url.urljoin, BaseLoader.isPath, BaseLoader.'
              'normalizeURL on URL-shaped input (fragment rejected, file:/x -> file:///x) and the name filter '
              'of _url_from_file equal reference rules; the language of _pathsep_rx is proved equal to the RFC '
@@ -148,7 +165,8 @@ CLAIMED = {
              'which section-datatype call), every feasible fault point is explored as a path: all objects created '
              'through createResource are closed and all URL streams are closed when the call returns or raises, '
              'and a following clean load gives the fresh outcome.',
-        note='trusted: the tracking wrappers around createResource (documented override point) and urlopen; the '
+        note='scenarios include ONE SchemaLoader serving two loads of the same URL (cache hit; failed first load); '
+             'trusted: the tracking wrappers around createResource (documented override point) and urlopen; the '
              'fault spaces are finite and enumerated exhaustively through the solver; real file I/O is concrete',
         ref='DESIGN.md section 7 C19'),
     'C10': dict(
@@ -159,13 +177,16 @@ CLAIMED = {
              'rejection is a SchemaError raised while loading; every replayed witness is rendered to XML and '
              'loaded through expat.',
         note='trusted: z3, engine models (replayed per path through loadSchemaFile), vf/oracles/schemarules.py; '
-             'XML well-formedness, <import>, dotted datatype names are outside the claim',
+             'XML well-formedness, <import>, dotted datatype names are outside the claim; every symbolic '
+             'attribute value is additionally tried empty and absent',
         ref='DESIGN.md section 7 C10'),
     'C11': dict(
-        text='Differential: for four composed/expanded schema pairs (extends chain of length 3 with key-type '
+        text='Differential: for six composed/expanded schema pairs (extends chain of length 3 with key-type '
              'override, inherited datatype, wildcard defaults re-normalised, implements not inherited; prefixes '
-             'nested to depth 3; schema-level extends of in-memory bases in sub/parent directories; a diamond of '
-             'three generated component packages imported repeatedly) and text skeletons with symbolic tokens, '
+             'nested to depth 3; schema-level extends of in-memory bases in sub/parent directories, two levels '
+             'deep with key type and datatype declared by the root only, three bases side by side; a diamond of '
+             'three generated component packages imported repeatedly) and every balanced text shape up to 3 '
+             '(thorough 4) lines with symbolic tokens, '
              'z3 shows on every path that the real loader gives equal value trees, or rejects both.',
         note='trusted: z3, engine models (replayed per path); the expansions are hand-written in '
              'vf/harness/c11.py; the oracle is the real code on the expanded schema',
@@ -173,16 +194,18 @@ CLAIMED = {
     'C12': dict(
         text='For a schema with abstract types and concrete types that implement / extend / ignore them and two '
              'generated component packages, with symbolic section-type and name tokens and %import lines before, '
-             'between and after the uses, in single loads and sequences of up to 3 loads against one schema '
+             'between and after the uses (also two packages that import each other), in single loads, every '
+             '(earlier load, later load) pair and sequences of up to 3 loads against one schema '
              'object, z3 shows on every path that accept/reject and value trees equal those of a conformance '
              'oracle whose vocabulary an import extends from that line on for that load only; a separate '
              'obligation compares getsubtypenames() of the schema before and after (known finding F10).',
         note='trusted: z3, engine models (replayed per path), conformance oracle; package names concrete',
         ref='DESIGN.md section 7 C12'),
     'C13': dict(
-        text='Histories of up to 3 (thorough 4) operations, each chosen by a z3 integer from {valid load + '
-             'mutation of every reachable list/dict, valid load, syntax / matching / conversion / section-'
-             'datatype failure, %import load, load with overrides}, run against ONE schema object; every step '
+        text='Histories of up to 3 (thorough 4) operations, each chosen by a z3 integer from 13 operations {valid '
+             'loads + mutation of every reachable list/dict, valid loads using every kind of default (lists, '
+             'keyed wildcard maps, string-list), syntax / matching / conversion / section-datatype failures, a '
+             'section using a name reserved by a key, %import load, load with overrides}, run against ONE schema object; every step '
              'equals the same load against a fresh schema; a separate obligation compares a structural digest '
              'of the schema before and after (known finding F10).',
         note='the solver enumerates a finite history space (honest note in DESIGN); one value token symbolic; '
@@ -195,8 +218,10 @@ CLAIMED = {
              'documented decision tables. Finite parts driven through the engine: logger/eventlog factories '
              '(name, level, propagate, handlers in order with level and format, idempotent), every sequence of '
              '{call factory, reopenFiles, closeFiles, drop references} up to the bound on real temp-file '
-             'handlers, and 29 formats over the four styles (accepted at load time => formatter builds and '
-             'formats an ordinary record).',
+             'handlers (closeFiles closes every live stream), re-configuration of one logger name (propagate and '
+             'level of the latest configuration win), and 29 hand-written + 184 generated formats (every record '
+             'field x 4 styles x braced/unbraced x 2 formatter classes): accepted at load time => the formatter '
+             'builds, formats an ordinary record, and the text equals an independent reference renderer.',
         note='trusted: z3, engine models (replayed per path), reference tables in vf/harness/c20.py; {-/$-'
              'format validation on symbolic formats, rotation behaviour, syslog/SMTP/HTTP/NT handlers are '
              'outside the claim',
